@@ -63,7 +63,16 @@ def toClearRes (a : TrackAttrs) (r : Matching.Res) : Res :=
 
 def toClearFrame (a : TrackAttrs) (rs : List Matching.Res) : List Res := rs.map (toClearRes a)
 
-/-- unique track ids per frame: different estimates differ in (uuid, label), different ground truths in uuid -/
+/-- unique track ids per frame: different estimates differ in (uuid, label), different ground truths in uuid.
+
+An INPUT assumption that Python never checks: `DynamicObject.uuid: Optional[str] = None` (`common/object.py`, the
+constructor's default), and `_is_id_switched` / `_is_same_match` (`clear.py`) compare
+`cur.estimated_object.uuid == prev.estimated_object.uuid` — `None == None` is `True`, so all estimates of one label
+without a uuid are ONE track for CLEAR; a detector that re-uses an id inside a frame is not rejected either.  Real
+inputs that satisfy it: a tracker's output (one uuid per track) and every loaded dataset (`instance_token`).  When
+it fails the matcher is still one-to-one on OBJECTS, but the frame is not `TrackOneToOne`: the count then depends on
+which previous result the scan meets first, and a frame-to-frame identical pairing is booked a switch —
+`C05.shared_uuid_counts_a_switch` (Properties/C05.lean) computes the code's count on the smallest instance. -/
 structure UniqueTracks (a : TrackAttrs) (nE nG : Nat) : Prop where
   est : ∀ i < nE, ∀ i' < nE, a.est i = a.est i' → i = i'
   gt : ∀ j < nG, ∀ j' < nG, (a.gt j).id = (a.gt j').id → j = j'
